@@ -60,7 +60,8 @@ InfoPfx == <<46,105,110,102,111,95>>                          \* ".info_"
 RsrcPfx == <<46,114,115,114,99,95>>                           \* ".rsrc_"
 Yaml == <<46,121,97,109,108>>                                 \* ".yaml"
 TxtExt == <<46,116,120,116>>                                  \* ".txt"
-TEXT == <<84,69,88,84>>   HTft == <<72,84,102,116>>   Fldr == <<102,108,100,114>>
+TEXT == <<84,69,88,84>>   HTft == <<72,84,102,116>>   Fldr == <<102,108,100,114>>   PDF == <<80,68,70,32>>
+PdfExt == <<46,112,100,102>>                                   \* ".pdf"
 
 HasSuffix(b, x) == Len(b) >= Len(x) /\ SubSeq(b, Len(b) - Len(x) + 1, Len(b)) = x
 HasPrefix(b, x) == Len(b) >= Len(x) /\ SubSeq(b, 1, Len(x)) = x
@@ -149,10 +150,12 @@ Segs(raw, pos, k, D) ==
             IN [st |-> rest.st, items |-> <<SubSeq(raw, pos + 3, pos + 2 + L)>> \o rest.items]
 
 (* ---- the tree and the file system primitives ------------------------------- *)
-FileN(sz) == [k |-> "file", s |-> sz, c |-> 0, t |-> <<>>]
-InfoN(sz, cl) == [k |-> "file", s |-> sz, c |-> cl, t |-> <<>>]
-DirN == [k |-> "dir", s |-> 0, c |-> 0, t |-> <<>>]
-LinkN(tg) == [k |-> "link", s |-> 0, c |-> 0, t |-> tg]
+(* node: k kind, s size, t link target; for an information-fork side file also c (comment length) and ty (the type
+   code stored in the fork, which the views show instead of the extension's default) *)
+FileN(sz) == [k |-> "file", s |-> sz, c |-> 0, t |-> <<>>, ty |-> <<>>]
+InfoN(sz, cl, ty) == [k |-> "file", s |-> sz, c |-> cl, t |-> <<>>, ty |-> ty]
+DirN == [k |-> "dir", s |-> 0, c |-> 0, t |-> <<>>, ty |-> <<>>]
+LinkN(tg) == [k |-> "link", s |-> 0, c |-> 0, t |-> tg, ty |-> <<>>]
 
 Has(t, p) == p \in DOMAIN t
 Under(t, p) == {q \in DOMAIN t : IsPrefix(p, q)}
@@ -226,7 +229,9 @@ Ignored(n, ign) == CASE ign = "default" -> n # <<>> /\ n[1] \in {46, 64}
                      [] ign = "custom"  -> HasSuffix(n, TxtExt)
                      [] OTHER           -> FALSE
 Shown(n, D) == IF "F23" \in D THEN StripAll(n) ELSE TrimSuffix(n, Incomplete)
-TypeOfName(n) == IF HasSuffix(n, Incomplete) THEN HTft ELSE TEXT
+TypeOfName(n) == IF HasSuffix(n, Incomplete) THEN HTft ELSE IF HasSuffix(n, PdfExt) THEN PDF ELSE TEXT   \* file_types.go (the extensions used)
+(* the type every view of a regular file shows: the one stored in its information fork, else the extension's default *)
+TypeOfFile(t, q) == IF Has(t, InfoOf(q)) /\ t[InfoOf(q)].k = "file" /\ Len(t[InfoOf(q)].ty) = 4 THEN t[InfoOf(q)].ty ELSE TypeOfName(Base(q))
 VisibleKids(t, d, ign) == {q \in Kids(t, d) : ~Ignored(Base(q), ign)}
 RsrcSize(t, p) == IF StatK(t, RsrcOf(p)) = "file" THEN StatS(t, RsrcOf(p)) ELSE 0
 
@@ -238,7 +243,7 @@ EntryOf(t, q, ign, D) ==
        [] t[q].k = "link" -> (IF StatK(t, q) = "dir"
                                 THEN [n |-> nm, ty |-> Fldr, sz |-> Cardinality(VisibleKids(t, Follow(t, q, 3), ign)), cls |-> "link"]
                                 ELSE [n |-> nm, ty |-> TypeOfName(Base(t[q].t)), sz |-> StatS(t, q), cls |-> "link"])
-       [] OTHER -> [n |-> nm, ty |-> TypeOfName(n), sz |-> t[q].s + RsrcSize(t, q),
+       [] OTHER -> [n |-> nm, ty |-> TypeOfFile(t, q), sz |-> t[q].s + RsrcSize(t, q),
                     cls |-> IF HasSuffix(n, Incomplete) THEN "partial"
                             ELSE IF RsrcSize(t, q) > 0 \/ Has(t, RsrcOf(q)) THEN "forked" ELSE "plain"]
 Listable(t, q, ign) == /\ ~Ignored(Base(q), ign)
@@ -311,8 +316,8 @@ DoSetInfo(t, m, s, rp, D) ==
       isDir == StatK(t, p) = "dir"
       ip == InfoOf(p)
       cm == Val(s.comment)
-      newInfo == IF Has(t, ip) /\ t[ip].k = "file" THEN InfoN(t[ip].s - t[ip].c + Len(cm), Len(cm))
-                 ELSE InfoN(74 + Len(Base(p)) + Len(cm), Len(cm))
+      newInfo == IF Has(t, ip) /\ t[ip].k = "file" THEN InfoN(t[ip].s - t[ip].c + Len(cm), Len(cm), t[ip].ty)
+                 ELSE InfoN(74 + Len(Base(p)) + Len(cm), Len(cm), IF isDir THEN Fldr ELSE TypeOfName(Base(p)))
       w == IF s.comment = Absent THEN Good(t)
            ELSE IF ~SideOK(p, rp, D) THEN Fail(t, "other") ELSE CreateFS(t, ip, newInfo)
       t1 == w.t
@@ -481,8 +486,8 @@ PlainName(b) == b # <<>> /\ b # OneDot /\ b # DotDot /\ 47 \notin Range(b) /\ Va
 
 (* trees compared up to the comment side file of a FOLDER (the statement speaks of a file's forks) *)
 FolderInfo(T, q) == HasPrefix(Base(q), InfoPfx) /\ LET tg == Sib(q, SubSeq(Base(q), 7, Len(Base(q)))) IN Has(T, tg) /\ T[tg].k = "dir"
-(* ... and the comment length is an attribute of information-fork files only *)
-Norm(T) == [q \in DOMAIN T |-> IF HasPrefix(Base(q), InfoPfx) THEN T[q] ELSE [T[q] EXCEPT !.c = 0]]
+(* ... and the comment length / stored type are attributes of information-fork files only *)
+Norm(T) == [q \in DOMAIN T |-> IF HasPrefix(Base(q), InfoPfx) THEN T[q] ELSE [T[q] EXCEPT !.c = 0, !.ty = <<>>]]
 Core(T, T0) == [q \in {x \in DOMAIN T : ~FolderInfo(T, x) /\ ~FolderInfo(T0, x)} |-> Norm(T)[q]]
 
 WellFormed(s, T0, rp) ==
@@ -544,8 +549,8 @@ Requested(s, T0, rp) ==
        [] s.kind = "alias" -> With(T0, dst \o <<Base(p)>>, LinkN(p))
        [] s.kind = "rename" -> Image(T0, p, Resolve(rp, pr.items, Val(s.newname)), T0[p].k = "file")
        [] s.kind = "move" -> Image(T0, p, dst \o <<Base(p)>>, TRUE)
-       [] s.kind = "setcomment" -> With(T0, InfoOf(p), IF Has(T0, InfoOf(p)) THEN InfoN(T0[InfoOf(p)].s - T0[InfoOf(p)].c + Len(cm), Len(cm))
-                                                          ELSE InfoN(74 + Len(Base(p)) + Len(cm), Len(cm)))
+       [] s.kind = "setcomment" -> With(T0, InfoOf(p), IF Has(T0, InfoOf(p)) THEN InfoN(T0[InfoOf(p)].s - T0[InfoOf(p)].c + Len(cm), Len(cm), T0[InfoOf(p)].ty)
+                                                          ELSE InfoN(74 + Len(Base(p)) + Len(cm), Len(cm), IF T0[p].k = "dir" THEN Fldr ELSE TypeOfName(Base(p))))
        [] OTHER -> T0
 
 (* ---- differences between two trees -------------------------------------------------------------- *)
